@@ -138,6 +138,16 @@ func (c *Ctx) havocOpos(s *State) {
 	s.cells["$opos"] = Val{S: n}
 }
 
+// havocWfault: the ghost write-fault flag after code that may have written
+// output (a module function or a loop body): a fault that has happened stays,
+// a new one may have happened.
+func (c *Ctx) havocWfault(s *State) {
+	old := c.region(s, "$wfault")
+	n := c.freshSort("wfault", "Bool")
+	c.assume(implies(old, n))
+	s.cells["$wfault"] = Val{S: n}
+}
+
 // havocTpos: the ghost input cursor after code that may have read input.
 func (c *Ctx) havocTpos(s *State, old string) {
 	n := c.freshSort("tpos", "Int")
